@@ -260,7 +260,16 @@ func Run(f func()) (failures []string, assumeViolated bool, panicked interface{}
 		}()
 		f()
 	}()
-	<-done
+	// A harness that blocks for ever (e.g. a writer stuck on a full channel) is
+	// reported as the failure "blocks" (the engine reports the same label when
+	// the main goroutine can never run again).
+	select {
+	case <-done:
+	case <-time.After(30 * time.Second):
+		mu.Lock()
+		defer mu.Unlock()
+		return append(append([]string(nil), Failures...), "blocks"), false, nil
+	}
 	mu.Lock()
 	defer mu.Unlock()
 	return append([]string(nil), Failures...), assumeViolated, panicked
